@@ -323,6 +323,26 @@ def run(plan: dict[str, Any]) -> dict[str, Any]:
             prev = (n, body)
         if len(lst) > 16:
             R.probes["outgoing_wraparound"] += 1
+    # 3b. every T_ACK answers a data frame of the peer it is sent to: the numbered data frames handed to Management.process and
+    # the T_ACKs leaving xknx pair up per peer and number (two peers may use the same numbers at the same time)
+    pend: dict[tuple[int, int], int] = {}
+    for e in ev:
+        if e[3] == "mgmt_in" and e[5] == "TDataConnected":
+            tg = next((t_ for (n_, t_) in seen_in if n_ == e[0]), None)
+            if tg is not None:
+                key_ = (tg.source_address.raw, tg.tpci.sequence_number)
+                pend[key_] = pend.get(key_, 0) + 1
+        elif e[3] == "handoff":
+            c = W.parse_cemi_ldata(bytes.fromhex(e[5]))
+            if c and not c["group"] and c["tpdu"] and (c["tpdu"][0] & 0xC3) == 0xC2:
+                key_ = (c["dst"], (c["tpdu"][0] >> 2) & 0xF)
+                if pend.get(key_, 0) > 0:
+                    pend[key_] -= 1
+                else:
+                    R.violate("C43.ack-only-open-connection", "ack-sent-to-a-peer-that-sent-no-such-frame",
+                              f"T_ACK({key_[1]}) handed to the interface for {key_[0]:04x}, which had no unacknowledged data frame "
+                              f"with that number (waiting: {[(f'{k[0]:04x}', k[1]) for k, v in pend.items() if v]})")
+                    break
     # 4. T_ACK leaves xknx only for numbered data from a peer with an open connection and n in {expected, expected-1}
     open_conn: dict[int, int] = {}        # peer -> expected incoming number (reference B.5)
     last_in: tuple[int, int] | None = None
